@@ -92,6 +92,9 @@ def gen(rng: Any, prop: str, tier: str) -> dict[str, Any]:
         g.exec("s0", {"t": "create_schema", "db": "DB2", "name": "S1"})
         if hazards["multi_call_statement"]:
             g.exec("s0", {"t": "create_table", "ref": ["DB2", "S1", "TX"], "cols": [["A", "INT"], ["B", "VARCHAR(20)"]], "comment": f"c{g.fresh()}"})
+    if hazards["multi_call_statement"] and rng.random() < 0.5:
+        # an object under a quoted lower-case name, with Snowflake-side metadata: it must come back like any other
+        g.ops.append({"s": "s0", "k": "exec", "sql": f"CREATE TABLE \"raw_t\" (A INT, B VARCHAR(9)) COMMENT = 'q{g.fresh()}'", "st": {"t": "create_table"}})
     txn_owner: str | None = None
     vtype = "VARCHAR(20)" if hazards["multi_call_statement"] else "INT"  # any text column makes CREATE TABLE a multi-call statement
     while len(g.ops) < n + len(sids):
@@ -312,7 +315,7 @@ def run_memory(case: dict[str, Any]) -> dict[str, Any]:
 # --------------------------------------------------------------------------- snapshot of a db_path instance
 
 
-def snapshot_dbpath(sim: core.Sim, D: str, names_hint: list[str] | None = None, alt_case: int = 0) -> dict[str, Any]:
+def snapshot_dbpath(sim: core.Sim, D: str, names_hint: list[str] | None = None, alt_case: int = 0, live: bool = False) -> dict[str, Any]:
     """Observable state of the instance inside the current `with fakesnow.patch(db_path=D)`: connect to every
     database that has a file, then catalog + rows (engine system functions) and comments + VARCHAR lengths (API)."""
     import snowflake.connector
@@ -325,6 +328,23 @@ def snapshot_dbpath(sim: core.Sim, D: str, names_hint: list[str] | None = None, 
         names = sorted({f.upper() for f in on_disk} if not names_hint else {n for n in names_hint if n.lower() in {f.lower() for f in on_disk}})
         files = names
         fs = core.find_instance()  # the FakeSnow instance behind the patch
+        # the rows of fakesnow's side tables as they are BEFORE this observer connects (a live writer has its databases
+        # attached already); the restart process has nothing attached yet and reads them after its connects instead
+        ext_before: dict[str, Any] | None = None
+        if live:
+            ext_before = {}
+            c0 = core.raw(fs.duck_conn).cursor()
+            try:
+                attached = {r[0] for r in c0.execute("select database_name from duckdb_databases() where not internal").fetchall()}
+                for d in sorted(attached):
+                    if d.upper() in {n.upper() for n in names}:
+                        for t in ("_fs_tables_ext", "_fs_columns_ext"):
+                            try:
+                                ext_before[f"{d.upper()}.{t}"] = sorted(norm_rows(c0.execute(f'select * from "{d}".information_schema.{t}').fetchall()), key=sort_key)
+                            except BaseException:  # noqa: BLE001, S110
+                                pass
+            finally:
+                c0.close()
         conns = {}
         errors = {}
         for i, db in enumerate(names):
@@ -333,7 +353,7 @@ def snapshot_dbpath(sim: core.Sim, D: str, names_hint: list[str] | None = None, 
             except BaseException as e:  # noqa: BLE001
                 errors[db] = f"{type(e).__name__}: {str(e)[:160]}"
         cur = core.raw(fs.duck_conn).cursor()
-        snap: dict[str, Any] = {"dbs": files, "attach_errors": errors, "schemas": [], "tables": {}, "views": [], "rows": {}, "comments": {}, "lengths": {}}
+        snap: dict[str, Any] = {"dbs": files, "attach_errors": errors, "schemas": [], "tables": {}, "views": [], "rows": {}, "comments": {}, "lengths": {}, "ext": ext_before}
         try:
             user = [d for d in files if d not in errors and d.lower() != GLOBAL_DATABASE_NAME.lower()]
             for d, s in cur.execute("select database_name, schema_name from duckdb_schemas() where not internal").fetchall():
@@ -352,6 +372,15 @@ def snapshot_dbpath(sim: core.Sim, D: str, names_hint: list[str] | None = None, 
                     snap["views"].append(f"{d}.{s}.{v}")
             snap["schemas"].sort()
             snap["views"].sort()
+            if not live:
+                ext_after: dict[str, Any] = {}
+                for d in user:
+                    for t in ("_fs_tables_ext", "_fs_columns_ext"):
+                        try:
+                            ext_after[f"{d.upper()}.{t}"] = sorted(norm_rows(cur.execute(f'select * from "{d}".information_schema.{t}').fetchall()), key=sort_key)
+                        except BaseException:  # noqa: BLE001, S110
+                            pass
+                snap["ext"] = ext_after
         finally:
             cur.close()
         for db, conn in conns.items():
@@ -493,7 +522,7 @@ def proc_a(w: int, D: str, case: dict[str, Any], fault: dict[str, Any], referenc
                     break
                 _emit(w, {"ev": "op_done", "i": j, "ok": out.get("ok"), "exc": out.get("exc"), "events": sim.engine_events, "sys": lib.fsv_count() if have_shim else 0})
                 if reference:
-                    snap = snapshot_dbpath(sim, D)
+                    snap = snapshot_dbpath(sim, D, live=True)
                     _emit(w, {"ev": "snap", "i": j, "snap": snap})
                     t = op_kind(op)
                     open_txn[op["s"]] = True if t == "begin" else False if t in ("commit", "rollback", "connect", "close") else open_txn.get(op["s"], False)
@@ -575,11 +604,17 @@ def in_child(fn: Any, *args: Any, timeout: float = 90.0) -> tuple[int, list[dict
 # --------------------------------------------------------------------------- oracle
 
 
-COMPONENTS = ["dbs", "schemas", "tables", "views", "rows", "comments", "lengths"]
+COMPONENTS = ["dbs", "schemas", "tables", "views", "rows", "comments", "lengths", "ext"]
+
+
+def _comp(snap: dict[str, Any], c: str) -> Any:
+    if c == "ext":
+        return {k: v for k, v in (snap.get("ext") or {}).items() if v}  # a database without side-table rows = no entry
+    return snap.get(c)
 
 
 def diff(a: dict[str, Any], b: dict[str, Any], ignore: tuple[str, ...] = ()) -> list[str]:
-    return [c for c in COMPONENTS if c not in ignore and a.get(c) != b.get(c)]
+    return [c for c in COMPONENTS if c not in ignore and _comp(a, c) != _comp(b, c)]
 
 
 def op_kind(op: dict[str, Any]) -> str:
